@@ -909,7 +909,9 @@ func (m *MutableOverlayWorld) AddTag(id b6.FeatureID, tag b6.Tag) error {
 		if base == nil {
 			return fmt.Errorf("No feature with ID %s", id)
 		}
-		if indexedAfter {
+		// A point whose only tag is its location isn't in the base's search
+		// index, so its first tag, even a plain one, has to bring it into ours.
+		if indexedAfter || (id.Type == b6.FeatureTypePoint && len(base.AllTags()) == 1) {
 			// Copy the feature with the plain tag edits recorded so far.
 			f = NewFeatureFromWorld(m.tags.WrapFeature(base))
 			delete(m.tags, id)
